@@ -69,6 +69,7 @@ type resolveRec struct {
 	layer    int
 	inv, ret uint64
 	retAt    time.Duration
+	invAt    time.Duration
 	evict    uint64 // seq at which this holder released with Close (evicting); 0 = Done or still held
 	inst     any
 	ok       bool
@@ -168,7 +169,8 @@ func run(t *testing.T, tape *simrt.Tape) *hx.Outcome {
 			descs[i] = ocispec.Descriptor{Digest: L.built.Digest, Size: int64(len(L.built.Blob)), MediaType: ocispec.MediaTypeImageLayerGzip}
 		}
 		outage := false
-		var ts []*simrt.Task
+		var ts, bgs []*simrt.Task
+		bgN := 0
 		for h := 0; h < nHolders; h++ {
 			h := h
 			ts = append(ts, s.Go(fmt.Sprintf("holder%d", h), func(t *simrt.Task) {
@@ -177,7 +179,7 @@ func run(t *testing.T, tape *simrt.Tape) *hx.Outcome {
 				for r := 0; r < rounds && !s.Failed(); r++ {
 					li := dr(nLayers)
 					L := layers[li]
-					rec := &resolveRec{layer: li, inv: s.Seq()}
+					rec := &resolveRec{layer: li, inv: s.Seq(), invAt: s.Now()}
 					l, err := rs.Resolve(context.Background(), hosts, refspec, descs[li])
 					rec.ret = s.Seq()
 					rec.retAt = s.Now()
@@ -207,6 +209,18 @@ func run(t *testing.T, tape *simrt.Tape) *hx.Outcome {
 						return
 					}
 					tree := common.NewTree(rn)
+					// like fs.Mount: prefetch and background fetch of the layer may run while it is used and
+					// still be in flight (a chunk being written to the cache) when it is released
+					if bs := "bg:" + t.Label; s.Tape.Draw(bs, 2) == 1 {
+						which := s.Tape.Draw(bs, 3)
+						bgN++
+						if which != 1 {
+							bgs = append(bgs, s.Go(fmt.Sprintf("h%d-prefetch%d", h, bgN), func(*simrt.Task) { l.Prefetch(int64(len(L.built.Blob))) }))
+						}
+						if which != 0 {
+							bgs = append(bgs, s.Go(fmt.Sprintf("h%d-bgfetch%d", h, bgN), func(*simrt.Task) { l.BackgroundFetch() }))
+						}
+					}
 					ops := 1 + dr(5)
 					for o := 0; o < ops && !s.Failed(); o++ {
 						switch k := dr(8); {
@@ -289,6 +303,7 @@ func run(t *testing.T, tape *simrt.Tape) *hx.Outcome {
 			}))
 		}
 		mt.Join(ts...)
+		mt.Join(bgs...)
 		if s.Failed() {
 			return
 		}
@@ -316,6 +331,17 @@ func run(t *testing.T, tape *simrt.Tape) *hx.Outcome {
 					if b.retAt-a.retAt >= time.Duration(ttl)*time.Second {
 						continue // a's instance may have expired
 					}
+					// the cache entry expires ttl after the instance was ADDED, which is no earlier than the
+					// invocation of the first Resolve that returned it (a itself may have been a cache hit)
+					born := a.invAt
+					for _, r := range recs {
+						if r.inst == a.inst && r.invAt < born {
+							born = r.invAt
+						}
+					}
+					if b.retAt-born >= time.Duration(ttl)*time.Second {
+						continue
+					}
 					s.Fail("not-shared", "two overlapping Resolve calls for layer %d (seq %d-%d and %d-%d) returned different instances although the first instance was neither evicted nor expired", a.layer, a.inv, a.ret, b.inv, b.ret)
 					return
 				}
@@ -327,6 +353,17 @@ func run(t *testing.T, tape *simrt.Tape) *hx.Outcome {
 		for _, sub := range []string{"fscache", "httpcache"} {
 			if fs := filesUnder(filepath.Join(rroot, sub)); len(fs) > 0 {
 				s.Fail("cache-left-behind", "all holders released and %ds (2x TTL) passed, but %s still holds %d file(s)", 2*ttl+2, sub, len(fs))
+				return
+			}
+			// ... and the per-layer cache directories themselves are gone
+			if ents, _ := os.ReadDir(filepath.Join(rroot, sub)); len(ents) > 0 {
+				if os.Getenv("VERIF_DEBUG_LS") != "" {
+					filepath.Walk(filepath.Join(rroot, sub), func(p string, fi os.FileInfo, err error) error {
+						fmt.Fprintln(os.Stderr, "LEFT:", strings.TrimPrefix(p, rroot), fi.IsDir())
+						return nil
+					})
+				}
+				s.Fail("cache-dir-left-behind", "all holders released and %ds (2x TTL) passed, but %s still holds %d cache director(ies) of released layers", 2*ttl+2, sub, len(ents))
 				return
 			}
 		}
